@@ -547,7 +547,10 @@ def gen_scenario(rng, sid, p_malformed=0.15, max_depth=5, p_multi=0.3, allow_asy
     same_free_names = rng.random() < 0.3
     falsy_callables = rng.random() < 0.25
     event_deco = rng.random() < 0.5
-    return dict(id=sid, names=names, entries=entries, rounds=rounds, force_async=force_async,
+    # model and listeners whose truth value is False (an empty collection that also provides names): they are
+    # providers like any other
+    falsy_providers = rng.random() < 0.3
+    return dict(id=sid, falsy_providers=falsy_providers, names=names, entries=entries, rounds=rounds, force_async=force_async,
                 malformed=malformed, via_any=via_any, same_free_names=same_free_names, falsy_callables=falsy_callables,
                 event_deco=event_deco, late=late, ctor_also=ctor_also)
 
